@@ -19,6 +19,9 @@ def setup(tier):
         P = rxmc.load_patterns()
         A = rxmc.Alphabet(P)
         L, nsk = rxmc.enumerate_language(A, P['PAT_EVENT_CODE'], rich=(tier == 'thorough'), pairs=True, triples=(tier == 'thorough'))
+        # an accepted code may still carry its line terminator ('$' matches before a final line feed): every third code once more with '\n' appended
+        pe = P['PAT_EVENT_CODE']
+        L = list(L) + [c + '\n' for c in list(L)[::3] if not c.endswith('\n') and pe.match(c + '\n')]
         _G.update(P=P, A=A, L=L, nsk=nsk)
     return _G
 
